@@ -171,6 +171,26 @@ def check(spec):
         except Exception as e:
             raise Violation(f"clone-raises:{how}:{type(e).__name__}", f"{e!r}"[:300])
         evals += 1
+    # a subset layer is re-configured after use (its public `indices` is re-assigned): accessors obtained before - a ModeWrapper keeps
+    # them from its constructor on - follow the new indices like freshly looked-up ones
+    node = ref
+    while node["t"] not in ("root", "concat") and not (node["t"] == "subset" and type(node["obj"]).__name__ == "KDSubset"):
+        node = node["child"]
+    if node["t"] == "subset" and len(node["indices"]) >= 2:
+        kept = {item: getattr(ds, f"getitem_{item}") for item in ITEMS}
+        new_idx = list(node["indices"])[::-1]
+        node["obj"].indices = list(new_idx)
+        node["indices"] = new_idx
+        for item in ITEMS:
+            for k in range(n):
+                exp = S.ref_item(ref, item, k)
+                got_kept, got_fresh = kept[item](k), getattr(ds, f"getitem_{item}")(k)
+                if not _eq(got_fresh, exp):
+                    raise Violation("re-assigned-indices-not-followed", f"getitem_{item}({k}) = {got_fresh!r} after re-assigning a layer's indices, composed map says {exp!r}")
+                if not _eq(got_kept, exp):
+                    raise Violation("kept-accessor-is-stale-after-re-assigning-indices", f"an accessor obtained before the re-assignment returns {got_kept!r} for {k}, a fresh one {got_fresh!r}")
+        labels.append("reindexed")
+        evals += 1
     # dispose reaches every root and every layer that owns a resource, also through concats with several parts
     objs = S.all_objects(ref)
     roots = [o for o in objs if isinstance(o, S.TokenRoot)]
@@ -249,25 +269,44 @@ def check_slowpath(spec):
     n = S.ref_len(ref)
     from kappadata.utils.getall_as_tensor import getall, getall_as_list, getall_as_numpy, getall_as_tensor
     exp = [S.ref_item(ref, "class", k) for k in range(n)]
+    has_subset = _has(spec, lambda s_: s_["t"] == "subset")
+    refusals = 0
     for name, fn in (("getall", getall), ("getall_as_list", getall_as_list), ("getall_as_numpy", getall_as_numpy),
                      ("getall_as_tensor", getall_as_tensor)):
         try:
             got = fn(ds, item="class")
         except Exception as e:
+            if has_subset:
+                # a subset announces every getall_<item> and fails when the layers below cannot serve it: a refusal, not a wrong answer
+                refusals += 1
+                continue
             raise Violation(f"slowpath-raises:{name}:{type(e).__name__}", repr(e)[:200])
         if not _eq(got, exp):
             raise Violation(f"slowpath-differs:{name}", f"{_short(got)} vs {_short(exp)}")
     expx = [S.ref_item(ref, "x", k) for k in range(n)]
-    if not _eq(getall(ds, item="x"), expx):
-        raise Violation("slowpath-differs:x", "")
+    try:
+        gotx = getall(ds, item="x")
+    except Exception as e:
+        if not has_subset:
+            raise Violation(f"slowpath-raises:getall-x:{type(e).__name__}", repr(e)[:200])
+        gotx = None
+    if gotx is not None and not _eq(gotx, expx):
+        raise Violation("slowpath-differs:x", f"{_short(gotx)} vs {_short(expx)}")
     return Case(S.depth(spec) >= 1, ["depth=%d" % S.depth(spec)], 5)
 
 
 @st.composite
 def slow_spec(draw):
     s = draw(S.root_spec(with_bulk=False))
+    n = s["n"]
     for _ in range(draw(st.integers(0, 4))):
-        s = {"t": "wrap", "kind": draw(st.sampled_from(["pass", "pass2"])), "wid": draw(st.integers(0, 9)), "child": s}
+        if draw(st.integers(0, 2)) == 0 and n > 0:
+            # index-changing layers above a root without bulk accessors: the helpers' per-sample fallback must follow them
+            idx = draw(st.lists(st.integers(0, n - 1), min_size=1, max_size=6))
+            s = {"t": "subset", "indices": idx, "as": draw(st.sampled_from(["list", "numpy", "tensor", "tuple"])), "child": s}
+            n = len(idx)
+        else:
+            s = {"t": "wrap", "kind": draw(st.sampled_from(["pass", "pass2"])), "wid": draw(st.integers(0, 9)), "child": s}
     return s
 
 
